@@ -26,6 +26,11 @@ pub enum Obs {
     P5(Vec<R5>),
     P6(Vec<R6>),
     P7(Vec<R7>),
+    /// two slices over ONE collection: (records of slice a, records of slice b)
+    P8(Vec<R6>, Vec<R6>),
+    P9(Vec<Vec<u32>>, Vec<Vec<u32>>),
+    P10(Vec<R3>, Vec<R3>),
+    P11(Vec<R6>, Vec<R6>),
 }
 
 fn inputs(n: usize) -> Vec<u32> {
@@ -116,6 +121,35 @@ fn oracle(obs: &Obs, n: usize, nb: usize) -> Result<(), String> {
             let b: Vec<u32> = (101..=100 + nb as u32).collect();
             partition(&rs.iter().map(|r| &r.1).collect::<Vec<_>>(), &b, true)?;
             monotone(&rs.iter().map(|r| r.2).collect::<Vec<_>>(), n)
+        }
+        Obs::P8(a, b) | Obs::P11(a, b) => {
+            // every slice sees a partition of the FULL keyed input (slice b of P11 is unordered)
+            oracle(&Obs::P6(a.clone()), n, nb).map_err(|m| format!("shared-a {m}"))?;
+            if matches!(obs, Obs::P8(..)) {
+                oracle(&Obs::P6(b.clone()), n, nb).map_err(|m| format!("shared-b {m}"))
+            } else {
+                for key in [1u32, 2u32] {
+                    let mut exp: Vec<u32> = keyed_inputs(n).into_iter().filter(|(k, _)| *k == key).map(|(_, v)| v).collect();
+                    let mut got: Vec<u32> = b.iter().flatten().filter(|(k, _)| *k == key).flat_map(|(_, vs)| vs.iter().copied()).collect();
+                    exp.sort();
+                    got.sort();
+                    if got != exp {
+                        return Err(format!("shared-b partition: key {key} batches hold {got:?}, input was {exp:?}"));
+                    }
+                }
+                Ok(())
+            }
+        }
+        Obs::P9(a, b) => {
+            partition(&a.iter().collect::<Vec<_>>(), &inputs(n), true).map_err(|m| format!("shared-a {m}"))?;
+            partition(&b.iter().collect::<Vec<_>>(), &inputs(n), true).map_err(|m| format!("shared-b {m}"))
+        }
+        Obs::P10(a, b) => {
+            for (tag, rs) in [("shared-a", a), ("shared-b", b)] {
+                partition(&rs.iter().map(|r| &r.0).collect::<Vec<_>>(), &inputs(n), true).map_err(|m| format!("{tag} {m}"))?;
+                monotone(&rs.iter().map(|r| r.1).collect::<Vec<_>>(), n).map_err(|m| format!("{tag} {m}"))?;
+            }
+            Ok(())
         }
         Obs::P6(rs) => {
             for key in [1u32, 2u32] {
@@ -246,7 +280,7 @@ pub fn run(rep: &mut Report, thorough: bool, replay: Option<Value>) {
     rep.rule = "case = (slice program, number of inputs, send pattern); for each case the repo's exhaustive simulator search enumerates every release decision (batch boundaries, snapshot versions, tick order); a case/execution is distinct by its sequence of per-slice records".into();
     rep.explanation = "every execution's per-slice records (batch contents, snapshot, state read/written) are checked: batches concatenate to the input (multiset for NoOrder), snapshots never decrease and never exceed what was sent, atomic-style snapshots equal exactly the number of elements released up to and including the slice's batch, state read in slice j+1 equals the value written in slice j".into();
     rep.assume("the simulator's exhaustive search itself is complete (that is C37's subject)");
-    rep.assume("corpus of 7 hand-written sliced! programs (bounded program family, not all programs)");
+    rep.assume("corpus of 11 hand-written sliced! programs (4 of them with one collection consumed by two slices) (bounded program family, not all programs)");
     // The state space of the programs that snapshot a top-level fold (its hook enumerates every
     // subset and order of fold inputs) grows fastest, so the bound is per program.
     let max_n = if thorough { 8 } else { 4 };
@@ -258,7 +292,7 @@ pub fn run(rep: &mut Report, thorough: bool, replay: Option<Value>) {
     rep.bound("max_inputs_P1", max_n_p1);
     rep.bound("max_inputs_P4_unordered", max_n_p4);
     rep.bound("sizes_P5", json!(p5_sizes));
-    rep.bound("programs", 7);
+    rep.bound("programs", 11);
 
     // Programs that snapshot a top-level singleton can run a tick while idle (their snapshot hook
     // holds the initial value), which would multiply the schedules of every other program in the
@@ -293,7 +327,23 @@ pub fn run(rep: &mut Report, thorough: bool, replay: Option<Value>) {
     let rx6 = slices::keyed_batch(i6).sim_output();
     let (tx7, i7) = node.sim_input::<u32, TotalOrder, ExactlyOnce>();
     let rx7 = slices::atomic_batch_count_state(i7).sim_output();
+    let (tx8, i8) = node.sim_input::<(u32, u32), TotalOrder, ExactlyOnce>();
+    let (o8a, o8b) = slices::shared_keyed_two_slices(i8);
+    let (rx8a, rx8b) = (o8a.sim_output(), o8b.sim_output());
+    let (tx9, i9) = node.sim_input::<u32, TotalOrder, ExactlyOnce>();
+    let (o9a, o9b) = slices::shared_stream_two_slices(i9);
+    let (rx9a, rx9b) = (o9a.sim_output(), o9b.sim_output());
+    let (tx11, i11) = node.sim_input::<(u32, u32), TotalOrder, ExactlyOnce>();
+    let (o11a, o11b) = slices::shared_keyed_ordered_and_unordered(i11);
+    let (rx11a, rx11b) = (o11a.sim_output(), o11b.sim_output());
     let sim = flow.sim().compiled();
+
+    let mut flow = FlowBuilder::new();
+    let node = flow.process::<slices::Node>();
+    let (tx10, i10) = node.sim_input::<u32, TotalOrder, ExactlyOnce>();
+    let (o10a, o10b) = slices::shared_snapshot_two_slices(i10);
+    let (rx10a, rx10b) = (o10a.sim_output(), o10b.sim_output());
+    let sim10 = flow.sim().compiled();
 
     let rec: Rec<Obs> = Rec::new();
     let only: Option<(String, usize, usize, String)> = replay.map(|c| {
@@ -477,6 +527,78 @@ pub fn run(rep: &mut Report, thorough: bool, replay: Option<Value>) {
                     (r, rec.take())
                 });
             }
+        }
+    });
+    // ---- one collection consumed by two slices ---------------------------------------------
+    let max_n_shared = if thorough { 4 } else { 3 };
+    rep.bound("max_inputs_shared_P8_P9_P11", max_n_shared);
+    rep.bound("max_inputs_shared_P10", max_n_shared - 1);
+    section!("P8_shared_keyed_two_slices", st, {
+        for n in 1..=max_n_shared {
+            let case = Case { prog: "P8", n, nb: 0, pattern: "upfront" };
+            if !wanted(&case) {
+                continue;
+            }
+            judge(&mut st, &case, &mut || {
+                let r = exhaustive(&sim, async || {
+                    tx8.send_many(keyed_inputs(n));
+                    let a: Vec<R6> = rx8a.collect().await;
+                    let b: Vec<R6> = rx8b.collect().await;
+                    rec.push(Obs::P8(a, b));
+                });
+                (r, rec.take())
+            });
+        }
+    });
+    section!("P9_shared_stream_two_slices", st, {
+        for n in 1..=max_n_shared {
+            let case = Case { prog: "P9", n, nb: 0, pattern: "upfront" };
+            if !wanted(&case) {
+                continue;
+            }
+            judge(&mut st, &case, &mut || {
+                let r = exhaustive(&sim, async || {
+                    tx9.send_many(inputs(n));
+                    let a: Vec<Vec<u32>> = rx9a.collect().await;
+                    let b: Vec<Vec<u32>> = rx9b.collect().await;
+                    rec.push(Obs::P9(a, b));
+                });
+                (r, rec.take())
+            });
+        }
+    });
+    section!("P10_shared_snapshot_two_slices", st, {
+        for n in 1..max_n_shared {
+            let case = Case { prog: "P10", n, nb: 0, pattern: "upfront" };
+            if !wanted(&case) {
+                continue;
+            }
+            judge(&mut st, &case, &mut || {
+                let r = exhaustive(&sim10, async || {
+                    tx10.send_many(inputs(n));
+                    let a: Vec<R3> = rx10a.collect().await;
+                    let b: Vec<R3> = rx10b.collect().await;
+                    rec.push(Obs::P10(a, b));
+                });
+                (r, rec.take())
+            });
+        }
+    });
+    section!("P11_shared_keyed_ordered_and_unordered", st, {
+        for n in 1..=max_n_shared {
+            let case = Case { prog: "P11", n, nb: 0, pattern: "upfront" };
+            if !wanted(&case) {
+                continue;
+            }
+            judge(&mut st, &case, &mut || {
+                let r = exhaustive(&sim, async || {
+                    tx11.send_many(keyed_inputs(n));
+                    let a: Vec<R6> = rx11a.collect().await;
+                    let b: Vec<R6> = rx11b.collect().await;
+                    rec.push(Obs::P11(a, b));
+                });
+                (r, rec.take())
+            });
         }
     });
     if only.is_some() {
